@@ -107,6 +107,27 @@ def check_point(sh, l, theta, phi):
     return None
 
 
+def check_kept(sh, l, angles):
+    """call history: the routine is called for every angle and the RETURNED OBJECTS are kept; only after the last call is each
+    one compared with Y_lm of its own angle (a result must not be a view of state that a later call rewrites)"""
+    kept = []
+    for (t, p) in angles:
+        for fn in ((f"SphHarm{l}" if l <= 10 else None), "sph_harm_l", ("SphHarm_above" if l > 10 else None)):
+            if fn is None:
+                continue
+            f = getattr(sh, fn)
+            kept.append((fn, t, p, f(t, p) if fn.startswith("SphHarm") and l <= 10 else f(l, t, p)))
+    scale = math.sqrt((2 * l + 1) / (4 * math.pi))
+    tol = 1e-9 * max(1.0, scale) * (1 if l <= 12 else 100)
+    for fn, t, p, got in kept:
+        want = np.asarray([ref_Y(l, m, t, p) if l <= 12 else ref_Y_mp(l, m, t, p) for m in range(-l, l + 1)])
+        got = np.asarray(got)
+        if got.shape != want.shape or np.max(np.abs(got - want)) > tol:
+            return (f"kept results: after {len(kept)} calls of degree {l} the array returned earlier by {fn}(θ={t}, φ={p}) no longer "
+                    f"holds Y_lm of that direction (max deviation {float(np.max(np.abs(got - want))) if got.shape == want.shape else 'shape'})")
+    return None
+
+
 def correspond(run):
     npts = 5 if run.tier == "quick" else 400
     angles = gen_angles(run.rng, npts)
@@ -149,6 +170,16 @@ def correspond(run):
                 run.hist("l", l)
             if why:
                 pfail.append(({"l": l, "theta": t, "phi": p}, why))
+    for l in range(1, 21):
+        sub = angles[5:9] if len(angles) >= 9 else angles[:4]
+        try:
+            why = check_kept(sh, l, sub)
+        except Exception as e:
+            why = f"kept results: l={l}: raised {type(e).__name__}: {e}"
+        run.hist("stream", "kept-results")
+        run.count(("kept", l, tuple(sub)), True)
+        if why:
+            pfail.append(({"l": l, "kept": [list(a) for a in sub]}, why))
     run.coverage["programs"] = 120
     run.coverage["disagreements_checked"] = len(tdis)
     if tdis:
@@ -179,6 +210,12 @@ def search(run, broken):
     except Exception as e:
         run.violation("C08:import", f"cannot import: {e}", {"case": {"import": True}})
         return []
+    for l in range(1, 21):
+        ang = gen_angles(run.rng, 6)[5:]
+        why = check_kept(sh, l, ang)
+        if why:
+            run.violation(key_of(why), why, {"case": {"l": l, "kept": [list(a) for a in ang]}})
+            return []
     for (t, p) in gen_angles(run.rng, 300):
         for l in range(1, 21):
             why = check_point(sh, l, t, p)
@@ -196,4 +233,6 @@ def replay(run, rp):
         return True
     if c.get("import"):
         return False
+    if "kept" in c:
+        return bool(check_kept(sh, c["l"], [tuple(a) for a in c["kept"]]))
     return bool(check_point(sh, c["l"], c["theta"], c["phi"]))
